@@ -6,10 +6,11 @@
    C (copy/move ctor), D (assignments), E (serialize, query), F (round trip), G (halve / merge in place),
    H–J (compress_while_updating, internal_update), K (update), L–N (merge, level zero and min/max),
    O–R (populate_work_arrays, general_compress), S (merge_higher_levels, merge_contract). -/
+import DSProofs.Lemmas.LifeKllT
 import DSProofs.Lemmas.LifeKllS
 namespace DS.Life.Kll
 
 /-- the side conditions hold for the values of the headers (DEFAULT_M = 8, MIN_K = 8, MAX_K = 65535) -/
-theorem Params.OK_default : Params.OK ⟨8, 8, 65535⟩ := by unfold Params.OK; decide
+theorem Params.OK_default (rs : Bool) : Params.OK ⟨8, 8, 65535, rs⟩ := by unfold Params.OK; simp only; decide
 
 end DS.Life.Kll
